@@ -47,3 +47,30 @@ func lastLines(s string, n int) string {
 	}
 	return strings.Join(ls, " | ")
 }
+
+// boundedC15Parser: the parser half of C15 (parseType family) is not within the verifier's reach; this
+// bounded enumeration stands in for it - labelled bounded, never counted among the discharged obligations.
+func boundedC15Parser(r *run) {
+	out, _ := runOverlayTestFiles(filepath.Join(repoDir, "fc"), map[string]string{"zz_verif_c15_test.go": filepath.Join(verifDir, "replay/fc_c15_bounded_test.go")}, "TestVerifBoundedC15", []string{"VERIF_BOUNDED_C15=1"}, 120*time.Second)
+	entry := map[string]any{"what": "parser half of C15: type expression -> FType -> Go type, through the real parser and emitter against a reference translation written from the documentation", "label": "bounded", "bound": "every type expression of the documented grammar to depth 2 over int/string/bool/float/any, slices, 2- and 3-tuples, function types (incl. unit argument / result), with minimal and with redundant parentheses, in 3 syntactic positions (parameter annotation, record field, union payload)"}
+	switch {
+	case strings.Contains(out, "BOUNDED-C15 OK"):
+		i := strings.Index(out, "BOUNDED-C15 OK")
+		entry["result"] = strings.TrimSpace(strings.SplitN(out[i:], "\n", 2)[0])
+	case strings.Contains(out, "BOUNDED-C15 FAIL"):
+		i := strings.Index(out, "BOUNDED-C15 FAIL")
+		txt := out[i:]
+		if j := strings.Index(txt, "--- "); j > 0 {
+			txt = txt[:j]
+		}
+		entry["result"] = "failing input found"
+		p := filepath.Join(verifDir, "replays", r.prop, "bounded_parser_half.txt")
+		os.MkdirAll(filepath.Dir(p), 0o755)
+		os.WriteFile(p, []byte("bounded stand-in for the parser half of C15 found a failing input on the real code\ncommand: (cd /repo/fc && VERIF_BOUNDED_C15=1 go test -overlay <zz_verif_c15_test.go => /verif/replay/fc_c15_bounded_test.go> -vet=off -run TestVerifBoundedC15 -v .)\n"+txt), 0o644)
+		r.extraVio = append(r.extraVio, violation{Obligation: "bounded/parser-half", Detail: txt, Replay: p, Input: true})
+	default:
+		entry["result"] = "harness did not run: " + lastLines(out, 4)
+		r.extraVio = append(r.extraVio, violation{Obligation: "bounded/parser-half", Detail: "bounded harness failed to run:\n" + out})
+	}
+	r.bounded = append(r.bounded, entry)
+}
